@@ -1896,7 +1896,11 @@ pub fn sllv(
     let block_index = {
         let block = control_flow_graph.new_block()?;
 
-        block.assign(rd, Expr::shl(rt, rs)?);
+        // only the low five bits of rs give the shift amount
+        block.assign(
+            rd,
+            Expr::shl(rt, Expr::and(rs, expr_const(0x1f, 32))?)?,
+        );
 
         block.index()
     };
@@ -2170,7 +2174,11 @@ pub fn srav(
     let block_index = {
         let block = control_flow_graph.new_block()?;
 
-        block.assign(rd, Expr::ashr(rt, rs)?);
+        // only the low five bits of rs give the shift amount
+        block.assign(
+            rd,
+            Expr::ashr(rt, Expr::and(rs, expr_const(0x1f, 32))?)?,
+        );
 
         block.index()
     };
@@ -2220,7 +2228,11 @@ pub fn srlv(
     let block_index = {
         let block = control_flow_graph.new_block()?;
 
-        block.assign(rd, Expr::shr(rt, rs)?);
+        // only the low five bits of rs give the shift amount
+        block.assign(
+            rd,
+            Expr::shr(rt, Expr::and(rs, expr_const(0x1f, 32))?)?,
+        );
 
         block.index()
     };
